@@ -477,6 +477,28 @@ def t_finite_degenerate(D, N, seed, flag):
     return True, ""
 
 
+def t_ic_set(D, N, S, seed):
+    """build_ic_set: S samples, sample i = the generator called with the i-th sub-key of the documented chain (k, sub) = split(k);
+    deterministic in the key, samples differ from each other"""
+    ex, jnp, jr = _ex()
+    gen = ex.ic.RandomTruncatedFourierSeries(D, cutoff=2)
+    key = jr.PRNGKey(seed)
+    a = np.asarray(ex.build_ic_set(gen, num_points=N, num_samples=S, key=key))
+    b = np.asarray(ex.build_ic_set(gen, num_points=N, num_samples=S, key=key))
+    if a.shape != (S, 1) + (N,) * D:
+        return False, f"build_ic_set shape {a.shape}, expected {(S, 1) + (N,) * D}"
+    if not np.array_equal(a, b) or not np.all(np.isfinite(a)):
+        return False, "build_ic_set is not a deterministic, finite function of the key"
+    k = key
+    for i in range(S):
+        k, sub = jr.split(k)
+        if not np.allclose(a[i], np.asarray(gen(N, key=sub)), rtol=0, atol=1e-12):
+            return False, f"sample {i} is not the generator evaluated with the {i}-th sub-key"
+    if S >= 2 and np.array_equal(a[0], a[1]):
+        return False, "samples 0 and 1 are identical"
+    return True, ""
+
+
 def t_contract(spec, D, N, seeds):
     """shape, finiteness, determinism in the key, documented statistics"""
     ex, jnp, jr = _ex()
@@ -830,7 +852,7 @@ def t_base_classes():
 TESTS = dict(contract=t_contract, tfs_offset=t_tfs_offset, tfs_band=t_tfs_band, grf_powerlaw=t_grf_powerlaw, diffused=t_diffused,
              discontinuities=t_discontinuities, blobs=t_blobs, sine=t_sine, clamp=t_clamp, scale=t_scale, fun_form=t_fun_form,
              options=t_options, multi=t_multi, base_classes=t_base_classes,
-             finite_degenerate=t_finite_degenerate)
+             finite_degenerate=t_finite_degenerate, ic_set=t_ic_set)
 
 
 def witness(ctx):
@@ -840,6 +862,8 @@ def witness(ctx):
     Ns = {1: (16, 15), 2: (8, 7), 3: (6, 5)} if not deep else {1: (16, 15, 33, 6), 2: (8, 7, 12, 5), 3: (6, 5, 8, 3)}
     DN = [(D, N) for D in (1, 2, 3) for N in Ns[D]]
     ctx.check("base_classes", {})
+    for Di, Ni, nS in ((1, 16, 3), (2, 7, 2)) + (((3, 5, 2), (1, 9, 5)) if deep else ()):
+        ctx.check("ic_set", dict(D=Di, N=Ni, S=nS, seed=s0))
     # the recorded finding (degenerate RandomDiscontinuities draws): exercised on every run, reported as KNOWN-FINDING
     for D, N, seed, flag in ((3, 8, 34, "max_one"), (3, 8, 74, "max_one")):
         ctx.check("finite_degenerate", dict(D=D, N=N, seed=seed, flag=flag))
